@@ -18,6 +18,8 @@ def run(tier):
         s = {"clause": clause, "kind": c["kind"], "limit": c["limit"], "pos": c["pos"]}
         if c["kind"] == "resp":
             s["ops"] = ["%s%s" % (o["k"], o["s"] if o["k"] == "WH" else (o["n"] if o["k"] == "W" else "")) for o in c["ops"]]
+        elif c["kind"] == "head":
+            s["declared"], s["status"] = c["declared"], c["status"]
         else:
             s["size"], s["framing"] = c["size"], c["framing"]
         s["observed"] = e["o"]
